@@ -221,7 +221,7 @@ class IMemo:
         return key in self.real
 
 
-def build_grammar(pp, nodes):
+def build_grammar(pp, nodes, streamline=True):
     """node table (Model/ThreadsMini.v `node`) -> list of pyparsing elements; index = identity"""
     objs = [None] * len(nodes)
     for i, nd in enumerate(nodes):
@@ -255,6 +255,12 @@ def build_grammar(pp, nodes):
             o = pp.Opt(get(nd[1], depth + 1))
         elif k == "act":
             o = pp.Word(nd[1]).add_parse_action(make_action(nd[2]))
+        elif k == "act1":                       # a one-argument parse action (arity discovered on first use)
+            o = pp.Word(nd[1]).add_parse_action(lambda t: None)
+        elif k == "each":
+            o = pp.Each([get(j, depth + 1) for j in nd[1]])
+        elif k == "oom":
+            o = pp.OneOrMore(get(nd[1], depth + 1))
         else:
             raise ValueError(k)
         objs[i] = o
@@ -265,9 +271,31 @@ def build_grammar(pp, nodes):
     for i, nd in enumerate(nodes):
         if nd[0] == "fwd":
             objs[i] <<= objs[nd[1]]
-    for o in objs:
-        o.streamline()
+    if streamline:
+        for o in objs:
+            o.streamline()
     return objs
+
+
+def gate_targets(pp, gates):
+    """{code object: set of line numbers} for source lines (found by their text) at which a thread must stop"""
+    import inspect
+    out = {}
+    for g in gates:
+        if g["target"] == "trim_arity_wrapper":
+            code = next(c for c in pp.core._trim_arity.__code__.co_consts if hasattr(c, "co_name") and c.co_name == "wrapper")
+        elif g["target"] == "Each.parseImpl":
+            code = pp.Each.parseImpl.__code__
+        else:
+            raise ValueError(g["target"])
+        src = open(code.co_filename).read().split("\n")
+        lines = [ln for ln in range(code.co_firstlineno, code.co_firstlineno + 200)
+                 if ln <= len(src) and src[ln - 1].strip() == g["line"]
+                 and ln in {l for _, _, l in code.co_lines() if l}]
+        if not lines:
+            raise ValueError("gate line %r not found in %s" % (g["line"], g["target"]))
+        out.setdefault(code, set()).update(lines)
+    return out
 
 
 def canon(pp, fn):
@@ -314,13 +342,19 @@ class Experiment:
         self.PE = pp.ParserElement
         self.mode = spec["mode"]
         self.size = spec.get("size", 128)
-        self.objs = build_grammar(pp, spec["grammar"])
+        self.fresh = bool(spec.get("fresh"))        # first-use probes: a never-used grammar for every run
         self.jobs = spec["jobs"]
         self.saved = None
+        self.targets = gate_targets(pp, spec["gates"]) if spec.get("gates") else None
         set_mode(pp, self.mode, self.size)
-        # warm-up + serial reference, real objects, one call at a time
-        self.serial = [canon(pp, make_job(pp, self.objs, j)) for j in self.jobs]
-        self.index_of = {id(o): i for i, o in enumerate(self.objs)}
+        if self.fresh:
+            self.serial = [canon(pp, make_job(pp, build_grammar(pp, spec["grammar"], False), j)) for j in self.jobs]
+            self.objs = None
+        else:
+            self.objs = build_grammar(pp, spec["grammar"])
+            # warm-up + serial reference, real objects, one call at a time
+            self.serial = [canon(pp, make_job(pp, self.objs, j)) for j in self.jobs]
+        self.index_of = {id(o): i for i, o in enumerate(self.objs or [])}
 
     def keyinfo(self, key):
         try:
@@ -343,6 +377,9 @@ class Experiment:
         if detail:
             ctl.keyinfo, ctl.memoinfo = self.keyinfo, self.memoinfo
         set_mode(pp, self.mode, self.size)
+        if self.fresh:
+            self.objs = build_grammar(pp, self.spec["grammar"], False)
+        targets = self.targets
         saved = (PE.packrat_cache_lock, PE.recursion_lock, PE.packrat_cache, PE.recursion_memos)
         results = [None] * n
         threads = []
@@ -353,9 +390,23 @@ class Experiment:
             PE.packrat_cache = ICache(ctl, saved[2])
             PE.recursion_memos = IMemo(ctl, saved[3])
 
+            def local_trace(frame, event, arg):
+                if event == "line" and frame.f_lineno in targets[frame.f_code]:
+                    t = ctl.gate("line")
+                    ctl.event(t, "line")
+                return local_trace
+
+            def global_trace(frame, event, arg):
+                return local_trace if frame.f_code in targets else None
+
             def body(tid):
                 ctl.ident[threading.get_ident()] = tid
-                results[tid] = canon(pp, make_job(pp, self.objs, self.jobs[tid]))
+                if targets:
+                    sys.settrace(global_trace)
+                try:
+                    results[tid] = canon(pp, make_job(pp, self.objs, self.jobs[tid]))
+                finally:
+                    sys.settrace(None)
                 ctl.done[tid] = True
                 ctl.pending[tid] = None
                 ctl.ctrl.release()
@@ -787,6 +838,46 @@ def job_sets(thorough):
     return explore, three
 
 
+# first-use races outside the two caches (not in the Coq model): deterministic probes with line-level gates (sys.settrace)
+# on a NEVER-USED grammar per run.  In packrat mode the outermost `_parseCache` serialises them (must not fail there).
+PROBE_KEYS = {
+    "trim_arity": "F-15b:first-use:_trim_arity:two-threads-first-call-of-1-arg-parse-action:TypeError",
+    "each_init": "F-15c:first-use:Each.initExprGroups:OneOrMore(x)&y:required-list-extended-twice:ParseException",
+}
+
+
+def probe_specs():
+    out = []
+    for mode in ("nomemo", "packrat"):
+        out.append({"mode": mode, "size": 128, "fresh": True, "probe": "trim_arity", "gname": "probe-arity",
+                    "grammar": [["act1", "ab"]], "jobs": [["parse_string", 0, "a"], ["parse_string", 0, "b"]],
+                    "gates": [{"target": "trim_arity_wrapper", "line": "limit += 1"}]})
+        out.append({"mode": mode, "size": 128, "fresh": True, "probe": "each_init", "gname": "probe-each",
+                    "grammar": [["each", [1, 3]], ["oom", 2], ["lit", "x"], ["lit", "y"]],
+                    "jobs": [["parse_string", 0, "xy"], ["parse_string", 0, "yx"]],
+                    "gates": [{"target": "Each.parseImpl", "line": "self.required += self.multirequired"}]})
+    return out
+
+
+def judge_probe(ctx, sp, serial, run):
+    key_tail = "%s|sched=%s" % (spec_id(sp), rle(run["schedule"]))
+    replay = {"kind": "schedule", "spec": sp, "schedule": run["schedule"]}
+    if run["hang"] is not None:
+        ctx.violation("hang:" + key_tail, "probe: " + run["hang"], replay)
+    for d in run["discipline"][:1]:
+        ctx.violation("discipline:" + key_tail, "probe: " + d, replay)
+    for t, (got, ser) in enumerate(zip(run["results"], serial)):
+        if run["hang"] is None and got != ser:
+            what = "first-use probe %s (%s): thread %d %r returned %r, alone (fresh grammar) it returns %r (schedule %s, stops at %r)" % (
+                sp["probe"], sp["mode"], t, sp["jobs"][t], got, ser, rle(run["schedule"]), sp["gates"][0]["line"])
+            if sp["mode"] != "packrat":
+                ctx.violation(PROBE_KEYS[sp["probe"]], what, replay)
+                ctx.stat("probe_failures_" + sp["probe"])
+            else:
+                ctx.violation("outcome:%s|thread=%d" % (key_tail, t), what, replay)
+    ctx.case(key_tail, nontrivial=True, agreed=True)
+
+
 WITNESSES = [
     # the F-15 witnesses of Props/C15.v at the granularity of visible operations
     ("F-15:witness:E<<=E+num|num:parse_string(1+2+3)||parse_string(9):t0.reset,t1.reset,t0.parse,t1.parse",
@@ -827,6 +918,9 @@ def correspond(ctx):
     for key, sp, pre in WITNESSES:
         tasks.append({"kind": "schedules", "spec": sp, "schedules": [pre]})
         meta.append(("witness", sp, key))
+    for sp in probe_specs():
+        tasks.append({"kind": "explore", "spec": sp, "bound": 2, "limit": 400})
+        meta.append(("probe", sp, None))
     iters = 400 if ctx.thorough else 120
     stress_specs = [spec("expr", "packrat", [["parse_string", 0, "1+2"], ["parse_string", 0, "(1)"], ["scan_string", 0, "2)1"],
                                              ["parse_string", 0, "1+2"], ["parse_string", 0, "1+"]], size=4),
@@ -843,6 +937,11 @@ def correspond(ctx):
     jobs, slot = [], {}
     for i, ((fam, sp, key), (rc, out, res)) in enumerate(zip(meta, results)):
         if fam == "stress":
+            continue
+        if fam == "probe" and res is not None and "error" not in res:
+            for run in res["runs"]:
+                judge_probe(ctx, sp, res["serial"], run)
+                ctx.stat("schedules_probe")
             continue
         if res is None or "error" in (res or {}):
             ctx.broken("correspondence:worker failed for %s/%s rc=%s %s" % (fam, spec_id(sp), rc, (res or {}).get("error", out[-200:])))
